@@ -1,4 +1,5 @@
-(* syntax_augmentation.py (C14): replace_tokens_and_get_augmented_positions (token loop with a match buffer) and
+(* syntax_augmentation.py (C14): replace_tokens_and_get_augmented_positions (token loop with a match buffer; text between and
+   inside opaque tokens copied from the source) and
    fix_positions (per-line correction of recorded columns for specs applied later).  Strings are lists of character
    codes; tokens come from Python's tokenizer (an input, not modelled).  No proofs in this file. *)
 From Coq Require Import List ZArith NArith Bool.
@@ -11,47 +12,42 @@ Fixpoint prefix_of (p s : str) : bool :=             (* s.startswith(p) *)
   match p, s with [] , _ => true | x :: p', y :: s' => N.eqb x y && prefix_of p' s' | _, [] => false end.
 Definition spaces (n : Z) : str := repeat 32%N (Z.to_nat n).
 
-Record token : Set := { t_str : str; t_sline : Z; t_scol : Z; t_eline : Z; t_ecol : Z }.
+(* a token with the source text standing before it (from the end of the previous token: blanks, tabs, form feeds, a backslash
+   continuation - copied as it stands), its own text (for strings, f-string literal parts and comments the source slice, which is
+   never part of a match: `opaque`), and where it starts *)
+Record token : Set := { t_gap : str; t_text : str; t_opaque : bool; t_row : Z; t_col : Z }.
 Record rstate : Set := {
-  transformed : str; matchbuf : str; match_start : Z * Z; col_offset : Z; positions : list (Z * Z); prev : option token }.
+  transformed : str; matchbuf : str; match_start : Z * Z; offset_row : Z; col_offset : Z; positions : list (Z * Z) }.
 
-Definition flush (tok : str) (force : bool) (s : rstate) : rstate :=
-  if force || negb (prefix_of (matchbuf s) tok)
-  then {| transformed := transformed s ++ matchbuf s; matchbuf := []; match_start := match_start s; col_offset := col_offset s;
-          positions := positions s; prev := prev s |}
-  else s.
-Definition mwrite (x : str) (s : rstate) : rstate :=
-  {| transformed := transformed s; matchbuf := matchbuf s ++ x; match_start := match_start s; col_offset := col_offset s;
-     positions := positions s; prev := prev s |}.
+Definition nonempty (x : str) : bool := match x with [] => false | _ => true end.
+
+(* the candidate `c` (started at `st`) spells a prefix of the token: an occurrence if it spells all of it, else keep collecting *)
+Definition finish (tok repl : str) (c : str) (st : Z * Z) (out : str) (s : rstate) : rstate :=
+  if str_eqb c tok
+  then let '(orow, coff) := if Z.eqb (fst st) (offset_row s) then (offset_row s, col_offset s) else (fst st, 0%Z) in
+       {| transformed := out ++ repl; matchbuf := []; match_start := st; offset_row := orow;
+          col_offset := (coff + (Z.of_nat (length repl) - Z.of_nat (length tok)))%Z;
+          positions := positions s ++ [(fst st, (snd st + coff)%Z)] |}
+  else {| transformed := out; matchbuf := c; match_start := st; offset_row := offset_row s; col_offset := col_offset s;
+          positions := positions s |}.
 
 Definition step (tok repl : str) (s : rstate) (cur : token) : rstate :=
-  let s1 := match prev s with
-            | Some p => if Z.eqb (t_eline p) (t_sline cur)
-                        then flush tok false (mwrite (spaces (t_scol cur - t_ecol p)%Z) s)
-                        else let s' := flush tok true s in
-                             mwrite (spaces (t_scol cur)) {| transformed := transformed s'; matchbuf := matchbuf s'; match_start := match_start s';
-                                                            col_offset := 0; positions := positions s'; prev := prev s' |}
-            | None => let s' := flush tok true s in
-                      mwrite (spaces (t_scol cur)) {| transformed := transformed s'; matchbuf := matchbuf s'; match_start := match_start s';
-                                                     col_offset := 0; positions := positions s'; prev := prev s' |}
-            end in
-  (* _write_match(cur) *)
-  let s2 := {| transformed := transformed s1; matchbuf := matchbuf s1 ++ t_str cur;
-               match_start := (match matchbuf s1 with [] => (t_sline cur, t_scol cur) | _ => match_start s1 end);
-               col_offset := col_offset s1; positions := positions s1; prev := prev s1 |} in
-  let s3 := flush tok false s2 in
-  let s4 := if str_eqb tok (matchbuf s3)
-            then {| transformed := transformed s3 ++ repl; matchbuf := [];  match_start := match_start s3;
-                    col_offset := (col_offset s3 + (Z.of_nat (length repl) - Z.of_nat (length tok)))%Z;
-                    positions := positions s3 ++ [(fst (match_start s3), (snd (match_start s3) + col_offset s3)%Z)]; prev := prev s3 |}
-            else s3 in
-  {| transformed := transformed s4; matchbuf := matchbuf s4; match_start := match_start s4; col_offset := col_offset s4;
-     positions := positions s4; prev := Some cur |}.
+  let joined := matchbuf s ++ t_gap cur ++ t_text cur in
+  if negb (t_opaque cur) && nonempty (matchbuf s) && prefix_of joined tok
+  then finish tok repl joined (match_start s) (transformed s) s
+  else
+    let out1 := transformed s ++ matchbuf s ++ t_gap cur in           (* what was collected is ordinary text *)
+    if negb (t_opaque cur) && prefix_of (t_text cur) tok && nonempty (t_text cur)
+    then finish tok repl (t_text cur) (t_row cur, t_col cur) out1 s
+    else {| transformed := out1 ++ t_text cur; matchbuf := []; match_start := match_start s; offset_row := offset_row s;
+            col_offset := col_offset s; positions := positions s |}.
 
 Definition replace_tokens (tok repl : str) (toks : list token) : str * list (Z * Z) :=
   let s := fold_left (step tok repl)
-                     toks {| transformed := []; matchbuf := []; match_start := (-1, -1)%Z; col_offset := 0; positions := []; prev := None |} in
-  let s' := flush tok true s in (transformed s', positions s').
+                     toks {| transformed := []; matchbuf := []; match_start := (-1, -1)%Z; offset_row := (-1)%Z; col_offset := 0; positions := [] |} in
+  (transformed s ++ matchbuf s, positions s).
+(* the source the tokens were cut from *)
+Definition source_of (toks : list token) : str := flat_map (fun t => t_gap t ++ t_text t) toks.
 
 (* ---- fix_positions, one line.  Specs are numbered in the order they were applied; offs k = len(token_k) - len(replacement_k) *)
 Definition occ : Set := (Z * nat)%type.                  (* recorded column, spec number *)
